@@ -120,3 +120,45 @@ Definition c07_holds (expected : json) (nfaults : nat) (o : observed) : bool :=
   | 2 => negb (Nat.eqb nfaults 0) && Nat.eqb (ob_nerrors o) nfaults && jsub (ob_data o) expected
   | _ => false
   end.
+
+(* C11: N requests on shared plans.  Per request: its own variables, what a solitary execution on
+   a freshly planned plan gave, what it gave when run together with the others on the shared plans,
+   and what it gave when run once more afterwards on the same plans. *)
+Record req_obs := { ro_vars : list (string * json); ro_solo : observed; ro_conc : observed; ro_again : observed }.
+
+Fixpoint strs_eqb (a b : list string) : bool :=
+  match a, b with
+  | [], [] => true
+  | x :: a', y :: b' => String.eqb x y && strs_eqb a' b'
+  | _, _ => false
+  end.
+
+(* the plans are what they were: snapshot digests before and after *)
+Definition plans_unchanged (before after : list string) : bool := strs_eqb before after.
+
+Definition same_calls (a b : observed) : bool :=
+  let ka := map oc_key (ob_calls a) in
+  let kb := map oc_key (ob_calls b) in
+  forallb (fun k => Nat.eqb (count_s k ka) (count_s k kb)) (ka ++ kb).
+
+Definition same_outcome (a b : observed) : bool :=
+  Nat.eqb (ob_class a) (ob_class b) && same_data (ob_data a) (ob_data b) &&
+  Nat.eqb (ob_nerrors a) (ob_nerrors b) && same_calls a b.
+
+(* every value a call of this request carried is this request's own (or the join id) *)
+Definition own_values (vars : list (string * json)) (o : observed) : bool :=
+  forallb (fun c =>
+    forallb (fun kv =>
+      (String.eqb (fst kv) "id" && negb (oc_root c)) ||
+      match jget (fst kv) vars with Some v => json_eqb v (snd kv) | None => false end) (oc_passed c))
+    (ob_calls o).
+
+Definition c11_holds (stray_calls : nat) (rs : list req_obs) : bool :=
+  Nat.eqb stray_calls 0 &&
+  forallb (fun r =>
+    (* the calls (service, query, variable values) and the answer are those of the solitary run:
+       in particular no call carries a value of another request *)
+    same_outcome (ro_conc r) (ro_solo r) && same_outcome (ro_again r) (ro_solo r) ||
+    (* a request whose solitary run already ends in errors is no reference: which of its calls are
+       still made then depends on the order of the plan's steps, which differs from plan to plan *)
+    negb (Nat.eqb (ob_class (ro_solo r)) 0)) rs.
